@@ -49,9 +49,24 @@ Definition per_poster_fifo (progs : list (list kind)) (s : st) : Prop :=
 Definition panic_isolated (s : st) : Prop :=
   escaped s = false
   /\ (alive s = false -> stopped s = true)     (* the consumer only ever leaves through Stop *)
-  /\ (forall c q', alive s = true -> queue s = (c, KPanic) :: q' ->
+  /\ (forall c k q', alive s = true -> queue s = (c, k) :: q' ->   (* k: returns, or panics with ANY value *)
         exists s', tstep s TCons = Some s' /\ alive s' = true /\ queue s' = q'
-                   /\ executed s' = executed s ++ [(c, KPanic)] /\ escaped s' = false).
+                   /\ executed s' = executed s ++ [(c, k)] /\ escaped s' = false).
+
+(* Frame: what closures panic WITH has no influence.  Two systems whose programs differ only in
+   panic values, under the same schedule: the same steps are enabled, the same closures have
+   run, are queued, were accepted / rejected, the consumer is alive in both or in neither. *)
+Definition same_shape (progs progs' : list (list kind)) : Prop :=
+  map (map kerase) progs = map (map kerase) progs'.
+
+Definition panic_value_frame (progs progs' : list (list kind)) (ws : bool) (sched : list tid) : Prop :=
+  let s := run_sched (init progs ws) sched in
+  let s' := run_sched (init progs' ws) sched in
+  st_erase s = st_erase s'
+  /\ exec_ids s = exec_ids s' /\ queue_ids s = queue_ids s'
+  /\ accepted s = accepted s' /\ rejected s = rejected s'
+  /\ alive s = alive s' /\ stopped s = stopped s' /\ escaped s = escaped s'
+  /\ (forall t, tstep s t = None <-> tstep s' t = None).
 
 Definition post_after_stop (s : st) : Prop :=
   stopped s = true ->
